@@ -25,6 +25,8 @@ pub enum Play {
     LateThenStall { first_delay_ms: u64, bytes: Vec<u8>, hold_ms: u64 },
     /// read the request, wait `delay_ms`, then write the whole response and close
     DelayedRespond { delay_ms: u64, bytes: Vec<u8> },
+    /// read the request, then for each part wait `delay_ms` and write its bytes; then close
+    Parts { parts: Vec<(u64, Vec<u8>)> },
     /// accept, never read a byte, never write; hold the connection for `hold_ms` (or until the peer goes away)
     AcceptNoRead { hold_ms: u64 },
 }
@@ -175,6 +177,16 @@ impl ScriptedServer {
                                     rec(Vec::new(), None, None);
                                     std::thread::sleep(Duration::from_millis(hold_ms));
                                 }
+                                Play::Parts { parts } => {
+                                    let (raw, p, m) = read_request(&mut s, Duration::from_secs(5));
+                                    rec(raw, p, m);
+                                    for (delay_ms, bytes) in parts {
+                                        std::thread::sleep(Duration::from_millis(delay_ms));
+                                        if s.write_all(&bytes).is_err() {
+                                            break;
+                                        }
+                                    }
+                                }
                                 Play::DelayedRespond { delay_ms, bytes } => {
                                     let (raw, p, m) = read_request(&mut s, Duration::from_secs(5));
                                     rec(raw, p, m);
@@ -210,6 +222,10 @@ impl ScriptedServer {
 
     pub fn take_log(&self) -> Vec<Received> {
         std::mem::take(&mut *self.log.lock().unwrap())
+    }
+
+    pub fn log_len(&self) -> usize {
+        self.log.lock().unwrap().len()
     }
 
     pub fn pending(&self) -> usize {
